@@ -26,6 +26,9 @@ func GenRepoSpec(r *Rand, maxCommits, maxRows int) RepoSpec {
 		}
 	}
 	sp.Base = SynthSpec{N: rows, NCols: r.Range(2, 4), Seed: r.Uint64()}
+	if r.Chance(0.12) {
+		sp.Base.Big = Pick(r, []int{65535, 65534, 65533, 32768, 300})
+	}
 	cols, pk, _ := sp.Base.Build()
 	nv := r.Range(1, 4)
 	for v := 0; v < nv; v++ {
